@@ -276,6 +276,97 @@ def run(ctx, rep):
 
 
 # ---------------------------------------------------------------------------------------------------------------
+# R18.5b the editor's "unchanged" test compares every component that the setter stores
+
+def _adt_of_ref_operand(fn, o):
+    p = op_place(o)
+    if p is None:
+        return None
+    from analyses import place_prefix_type
+    ty = place_prefix_type(fn, p, len(p['p']))
+    for _ in range(3):
+        if ty is not None and ty.get('k') in ('ref', 'ptr'):
+            ty = fn.types[ty['to']]
+    if ty is not None and ty.get('k') == 'adt':
+        return ty.get('path')
+    return None
+
+
+def _encode_component(fn, defs, o, depth=0):
+    """'date' / 'time.0' / 'time.1' when the operand is (a copy of) the result of Date::encode / a projection of the
+    result of Time::encode; None otherwise"""
+    p = op_place(o)
+    if p is None or depth > 8:
+        return None
+    for bi in fn.reachable():
+        t = fn.blocks[bi]['term']
+        if t['k'] == 'call' and t['dest']['l'] == p['l'] and not t['dest']['p']:
+            c = t.get('callee') or ''
+            if c.endswith('time::Date::encode') and not p['p']:
+                return 'date'
+            if c.endswith('time::Time::encode'):
+                idx = [e['f'] for e in p['p'] if 'f' in e]
+                if len(idx) == 1 and idx[0] in (0, 1):
+                    return 'time.%d' % idx[0]
+            return None
+    rv = defs.get(p['l'])
+    if rv is not None and rv['k'] in ('use', 'cast') and not p['p']:
+        return _encode_component(fn, defs, rv['a'], depth + 1)
+    return None
+
+
+WHOLE = {'fatfs::time::DateTime': {'date', 'time.0', 'time.1'}, 'fatfs::time::Date': {'date'},
+         'fatfs::time::Time': {'time.0', 'time.1'}}
+
+
+def run_unchanged_test(ctx, rep):
+    facts = ctx.facts
+    for short in ('set_created', 'set_accessed', 'set_modified'):
+        E = facts.fns.get('%s::%s' % (EDITOR, short))
+        Dd = facts.fns.get('%s::%s' % (DATA, short))
+        if E is None or Dd is None:
+            continue
+        ddefs = _single_defs(Dd)
+        need = set()
+        for bi in Dd.reachable():
+            for s in Dd.blocks[bi]['stmts']:
+                if s['k'] == 'assign' and s['lhs']['p'] and s['rv']['k'] in ('use', 'cast'):
+                    c = _encode_component(Dd, ddefs, s['rv']['a'])
+                    if c:
+                        need.add(c)
+            t = Dd.blocks[bi]['term']
+            if t['k'] == 'call' and t['dest']['p'] and (t.get('callee') or '').endswith('time::Date::encode'):
+                need.add('date')
+        edefs = _single_defs(E)
+        covered = set()
+        ncmp = 0
+        for bi in E.reachable():
+            t = E.blocks[bi]['term']
+            if t['k'] == 'call' and (t.get('callee') or '') in ('core::cmp::PartialEq::eq', 'core::cmp::PartialEq::ne') and \
+                    len(t['args']) == 2:
+                ncmp += 1
+                a, b = (_adt_of_ref_operand(E, x) for x in t['args'])
+                if a and a == b and a in WHOLE:
+                    eq = facts.fns.get('<%s as core::cmp::PartialEq>::eq' % a)
+                    if eq is None or (eq.span.get('expn') or '').startswith('derive'):
+                        covered |= WHOLE[a]
+            for s in E.blocks[bi]['stmts']:
+                if s['k'] == 'assign' and s['rv']['k'] == 'binop' and s['rv']['op'] in ('Eq', 'Ne'):
+                    ncmp += 1
+                    ca, cb = _encode_component(E, edefs, s['rv']['a']), _encode_component(E, edefs, s['rv']['b'])
+                    if ca and ca == cb:
+                        covered.add(ca)
+        missing = need - covered
+        ok = not missing or ncmp == 0  # no test at all: the setter always stores (nothing can be dropped)
+        rep.oblige('R18.5b', E.name, ok=ok, nontrivial=True,
+                   sample={'setter': E.name, 'components_stored': sorted(need), 'components_compared': sorted(covered)})
+        if not ok:
+            rep.violation('R18.5b', vkey('R18.5b', E.name, 'unchanged-test', ''), E.loc(E.span),
+                          'the "value unchanged" test of %s compares %s but the setter stores %s: a new value that differs only '
+                          'in %s is silently dropped' % (E.name, sorted(covered) or 'nothing recognisable', sorted(need), sorted(missing)))
+
+
+# ---------------------------------------------------------------------------------------------------------------
 # R18.6 the DOS date / time words are cut at the bit positions the FAT specification gives
 
 SPEC_BITS = {
@@ -549,3 +640,4 @@ _run_18 = run
 def run(ctx, rep):
     _run_18(ctx, rep)
     run_field_ranges(ctx, rep)
+    run_unchanged_test(ctx, rep)
